@@ -110,6 +110,14 @@ fn phase_code(p: &LinkPhase) -> (i128, i128, i128) {
     }
 }
 
+/// compact float literal for positions whose argument scope is float_scope
+fn fl(v: f64) -> String {
+    if v == 1.0 { return "1".into(); }
+    if v == 0.0 && v.is_sign_positive() { return "0".into(); }
+    let t = flt(v);
+    match t.strip_suffix("%float") { Some(b) if !b.starts_with('(') => b.to_string(), _ => t }
+}
+
 fn o64(v: Option<u64>) -> String { optz(v.map(|x| x as i128)) }
 
 fn rest_of(c: &SrtlaConnection) -> Vec<i128> {
@@ -127,7 +135,7 @@ fn aux_lit(c: &SrtlaConnection) -> String {
     let srtt = c.get_smooth_rtt_ms();
     format!("(mkX {} {} {} {} {} {} {})",
         z(c.batch_sender.queued_count() as i128), boolc(c.weak), boolc(c.loss_degraded), c.cc_target_bps,
-        flt(c.bitrate.current_bitrate_bps), boolc(!(srtt <= 0.0)), srtt as u64)
+        fl(c.bitrate.current_bitrate_bps), boolc(!(srtt <= 0.0)), srtt as u64)
 }
 
 /// the foreign projection of a link (fields no model op computes)
@@ -160,7 +168,7 @@ pub fn link_parts(c: &SrtlaConnection) -> Parts {
             boolc(c.stall_gated), h.stall_latched_since_ms, h.stall_recovery_since_ms, h.stall_gate_events,
             h.stall_probe_counter, boolc(h.silence_pulled), h.silence_pulls),
         x: aux_lit(c),
-        c: format!("(mkC {} {} {})", h.conn_timeout_ms, flt(h.quality_multiplier), h.quality_last_calculated_ms),
+        c: format!("(mkC {} {} {})", h.conn_timeout_ms, fl(h.quality_multiplier), h.quality_last_calculated_ms),
     }
 }
 
@@ -231,7 +239,7 @@ impl World {
         if let Act::Select(last, now, cfg) = a {
             let mut ins = vec![];
             for c in self.conns.iter() {
-                ins.push(format!("mkSI {} {}", flt(calculate_quality_multiplier(c, *now)), boolc(in_flight_cap_exceeded(c))));
+                ins.push(format!("mkSI {} {}", fl(calculate_quality_multiplier(c, *now)), boolc(in_flight_cap_exceeded(c))));
             }
             let r = select_connection_idx(&mut self.conns, *last, *now, &cfg.snapshot());
             let obs = self.conns.iter().map(link_parts).enumerate().collect::<Vec<_>>();
@@ -430,7 +438,7 @@ pub fn gen_cfg(rng: &mut Rng, guard_on_pct: u64) -> Cfg {
 }
 
 /// time steps around the thresholds that matter for link `v` under `cfg`
-fn dt_pool(w: &World, v: usize, cfg: &Cfg) -> Vec<u64> {
+pub fn dt_pool(w: &World, v: usize, cfg: &Cfg) -> Vec<u64> {
     let e = w.conns[v].effective_stall_stale_ms(cfg.ceil).min(120_000);
     let p = w.conns[v].silence_pull_window_ms(cfg.ceil).min(120_000);
     let mut d = vec![0, 1, 2, 17, 50, 249, 250, 251, p.saturating_sub(1), p, p + 1, e / 4, e / 2, e.saturating_sub(1), e, e + 1,
@@ -447,7 +455,7 @@ pub struct Script {
 }
 
 /// one random step of a C13 history
-fn c13_step(rng: &mut Rng, rec: &mut Recorder, sc: &mut Script, victim: usize) {
+pub fn c13_step(rng: &mut Rng, rec: &mut Recorder, sc: &mut Script, victim: usize) {
     let n = sc.n;
     let i = if rng.chance(3, 5) { victim } else { rng.below(n as u64) as usize };
     if rng.chance(3, 5) {
@@ -504,7 +512,7 @@ fn c13_step(rng: &mut Rng, rec: &mut Recorder, sc: &mut Script, victim: usize) {
 }
 
 /// initial state of a random C13 case (satisfies: latched => proof present, no rejoin run in progress)
-fn c13_setup(rng: &mut Rng, n: usize, t0: u64) -> impl Fn(&mut World) + 'static {
+pub fn c13_setup(rng: &mut Rng, n: usize, t0: u64) -> impl Fn(&mut World) + 'static {
     let mut plan: Vec<(Option<f64>, bool, u32, bool)> = vec![];
     for _ in 0..n {
         let rtt = if rng.chance(1, 4) { None } else { Some(*rng.pick(&RTT_POOL)) };
@@ -612,7 +620,7 @@ pub fn run(seed: u64, tier: &str, out: &std::path::Path, _extra: &[(String, Stri
     let mut totals = Default::default();
     push_case(&mut run, "scenario", &scenario_dwell(), &mut totals);
     push_case(&mut run, "scenario", &scenario_pull(), &mut totals);
-    let (cases, len) = if tier == "thorough" { (2400, 70) } else { (240, 60) };
+    let (cases, len) = if tier == "thorough" { (1700, 56) } else { (170, 56) };
     for k in 0..cases {
         let mut r = rng.fork(k as u64);
         let l = len / 2 + r.below(len as u64) as usize;
